@@ -78,7 +78,7 @@ func (w mWorld) key() string {
 var c10creationKinds = []string{"New(a)", "New(b)", "New()", "New(n1,WithLevel(Info))", "New(n2,WithJSONMode())", "New(n3,k,1,Attr)", "New(<name of first anonymous child>)"}
 var c10withKinds = []string{"WithLevel(Error)", "WithJSONMode()", "WithColorMode(false)", "WithUTCMode()", "WithTimeFormat(2006)", "WithAttrs(wa)", "WithAttrs1(w1,w2)", "With(wk,2)",
 	"WithSkip(1)", "WithSkip(2)", "WithContextKeys(ck)", "WithWriter(w1)", "WithErrorWriter(w2)", "WithValueStringer"}
-var c10setKinds = []string{"SetLevel(Error)", "SetLevel(Debug)", "SetJSONMode()", "SetColorMode(false)", "SetColorMode(true)", "SetUTCMode(false)", "SetTimeFormat()", "SetAttrs(sa)", "SetAttrs1(s1)", "Set(sk,3)",
+var c10setKinds = []string{"SetLevel(Error)", "SetLevel(Info)", "SetLevel(Debug)", "SetJSONMode()", "SetColorMode(false)", "SetColorMode(true)", "SetUTCMode(false)", "SetTimeFormat()", "SetAttrs(sa)", "SetAttrs1(s1)", "Set(sk,3)",
 	"SetSkip(3)", "SetContextKeys(c2)", "SetWriter(w1)", "SetErrorWriter(w2)", "SetValueStringer", "AddWriter(w2)"}
 var c10globalKinds = []string{"slog.SetLevel(Info)", "slog.New(r2)"}
 
@@ -91,11 +91,11 @@ func (w mWorld) firstAnonChild(t int) int {
 	return -1
 }
 
-var c10reducedSkip = map[string]bool{"SetColorMode(true)": true, "SetAttrs1(s1)": true, "SetErrorWriter(w2)": true, "SetTimeFormat()": true, "SetValueStringer": true, "AddWriter(w2)": true,
+var c10reducedSkip = map[string]bool{"SetLevel(Error)": true, "SetColorMode(true)": true, "SetAttrs1(s1)": true, "SetErrorWriter(w2)": true, "SetTimeFormat()": true, "SetValueStringer": true, "AddWriter(w2)": true,
 	"New(b)": true, "New(n2,WithJSONMode())": true, "WithColorMode(false)": true, "WithTimeFormat(2006)": true, "WithAttrs1(w1,w2)": true, "With(wk,2)": true, "WithErrorWriter(w2)": true,
 	"WithValueStringer": true, "WithUTCMode()": true}
 
-var c10small = map[string]bool{"New(a)": true, "New(b)": true, "New()": true, "New(<name of first anonymous child>)": true, "WithSkip(1)": true, "WithLevel(Error)": true,
+var c10small = map[string]bool{"SetLevel(Info)": true, "New(a)": true, "New(b)": true, "New()": true, "New(<name of first anonymous child>)": true, "WithSkip(1)": true, "WithLevel(Error)": true,
 	"SetLevel(Error)": true, "SetAttrs(sa)": true, "SetWriter(w1)": true, "SetJSONMode()": true, "slog.SetLevel(Info)": true}
 
 var c10structure = map[string]bool{"New(a)": true, "New()": true, "New(<name of first anonymous child>)": true, "WithSkip(1)": true, "SetLevel(Error)": true}
@@ -452,6 +452,8 @@ func (iw *c10world) apply(o c10op, m mWorld) (ret *slog.Entry, hasRet bool, pan 
 			ret = l.WithValueStringer(iw.vs)
 		case "SetLevel(Error)":
 			ret = l.SetLevel(slog.ErrorLevel)
+		case "SetLevel(Info)":
+			ret = l.SetLevel(slog.InfoLevel)
 		case "SetLevel(Debug)":
 			ret = l.SetLevel(slog.DebugLevel)
 		case "SetJSONMode()":
@@ -721,6 +723,23 @@ func (iw *c10world) lookups(m mWorld) (clause, detail string) {
 				break
 			}
 			choices = choices[:p+1]
+		}
+		// an Each started inside the callback of another Each must not disturb the outer walk
+		if m.L[i].Parent < 0 || len(m.L[i].Children) > 1 {
+			outer := map[*slog.Entry]int{}
+			inner := 0
+			l.Each(func(e *slog.Entry, d int) {
+				outer[e]++
+				iw.L[root(i)].Each(func(*slog.Entry, int) { inner++ })
+			})
+			if len(outer) != len(st) {
+				return "each", fmt.Sprintf("Each from L%d with a nested Each in its callback visited %d loggers, its subtree has %d", i, len(outer), len(st))
+			}
+			for _, j := range st {
+				if outer[iw.L[j]] != 1 {
+					return "each", fmt.Sprintf("Each from L%d with a nested Each in its callback visited L%d %d times", i, j, outer[iw.L[j]])
+				}
+			}
 		}
 		// Sublogger(name) for every name in the world + an absent one
 		names := map[string]bool{"absent-name": true}
